@@ -339,9 +339,9 @@ prop(
 prop(
     "C21",
     title="External tensor data cannot escape the model directory or its file bounds",
-    groups=[dict(crate="rten", prefix="c21", jobs=4, timeout_quick=2400, timeout_thorough=14400)],
+    groups=[dict(crate="rten", prefix="c21", jobs=6, timeout_quick=2400, timeout_thorough=14400)],
     functions=["model::external_data::is_allowed_external_data_path", "std::path::Path::{components, extension} (as compiled)"],
-    bounds=("every location string of 0..=6 symbolic bytes (7 and 8 thorough) plus 8 fixed longer locations, one per harness "
+    bounds=("every location string of 0..=6 symbolic bytes (7 thorough; 8 exceeded the memory limit) plus 8 fixed longer locations, one per harness "
             "(traversal, nesting, absolute, ./, Windows-style, split-file names); unwind 10-24"),
     outside=("the offset/length checks of MemLoader/MmapLoader/FileLoader: they sit behind a HashMap<String,_> lookup or real "
              "files (hash maps measured out of reach; I/O); locations longer than 8 bytes other than the fixed ones"),
